@@ -51,6 +51,11 @@ func outermostGenerated(f *ast.File) []*ast.CallExpr {
 		if n == nil {
 			return true
 		}
+		// the auxiliary directive some program files carry next to the program's own one
+		// (func extraP<pid>) is not part of the program's job structure
+		if fd, ok := n.(*ast.FuncDecl); ok && strings.HasPrefix(fd.Name.Name, "extraP") {
+			return false
+		}
 		if isGeneratedCall(n) {
 			out = append(out, n.(*ast.CallExpr))
 			return false
